@@ -2789,7 +2789,7 @@ def check_trace(case, want_info=False):
             info["classes"].append("verdict:single-runtime-with-nonfinite-skipped")
             results[tag] = None
             continue
-        if a[0] != "ok" and b[0] != "ok" and "op_kernel_context.h" in str(a[1]):
+        if a[0] != "ok" and b[0] != "ok" and ("op_kernel_context.h" in str(a[1]) or "core/framework/ort_value.h" in str(a[1])):
             # onnxruntime loaded the model and then tripped an internal assertion (an implicit Loop/Scan input that is the output of
             # a no-op Cast chain is gone at run time); with no second runtime for this case nothing can be concluded about the builder
             info["classes"].append("verdict:ort-internal-assertion-skipped")
